@@ -491,7 +491,13 @@ type recHolder struct {
 	Dict recDict
 }
 
-var recTypeKinds = []string{"tree", "dict", "cyclic-slice", "cyclic-array", "struct-field", "map-of-pointers", "tree-first-used-concurrently"}
+type recByte uint8
+type recByteHolder struct {
+	P, Q *[]recByte
+	R    *[]recByte
+}
+
+var recTypeKinds = []string{"tree", "dict", "cyclic-slice", "cyclic-array", "struct-field", "map-of-pointers", "tree-first-used-concurrently", "shared-pointer-to-a-slice-of-a-named-byte-type"}
 
 func checkRecType(kind string, res *result) {
 	type tc struct {
@@ -547,6 +553,18 @@ func checkRecType(kind string, res *result) {
 		h := &recHolder{"x", recTree{recTree{}, recTree{recTree{}}}, recDict{"a": recDict{"b": nil}}}
 		cases = append(cases, tc{"&Holder{x, tree, dict}", func() interface{} { return h }, func() interface{} { return new(*recHolder) }, func(orig, got interface{}) string {
 			g := *got.(**recHolder)
+			if !sameTree(reflect.ValueOf(orig), reflect.ValueOf(g)) {
+				return fmt.Sprintf("decoded %#v", g)
+			}
+			return ""
+		}})
+	case "shared-pointer-to-a-slice-of-a-named-byte-type":
+		// not a recursive type, but a node kind the graph generator lacks: the slice is read through the byte
+		// path, which enters it in the reference table as []uint8
+		b := []recByte{1, 2, 3}
+		e := []recByte{}
+		cases = append(cases, tc{"&Holder{P: &b, Q: &b, R: &empty}", func() interface{} { return &recByteHolder{&b, &b, &e} }, func() interface{} { return new(*recByteHolder) }, func(orig, got interface{}) string {
+			g := *got.(**recByteHolder)
 			if !sameTree(reflect.ValueOf(orig), reflect.ValueOf(g)) {
 				return fmt.Sprintf("decoded %#v", g)
 			}
